@@ -38,6 +38,16 @@ class CopyListener:
     lact = _mk_sync("lact")
 
 
+class CopyListenerEq(CopyListener):
+    """All instances compare equal (and hash alike): still distinct listeners."""
+
+    def __eq__(self, other):
+        return isinstance(other, CopyListenerEq)
+
+    def __hash__(self):
+        return 7
+
+
 class CopyListenerAsync(CopyListener):
     on_transition = _mk_async("on_transition")
     on_enter_s1 = _mk_async("on_enter_s1")
